@@ -86,9 +86,14 @@ func c06LateOne(c *Ctx, idx int, mode string) {
 						frame := append([]byte{byte(len(w) >> 8), byte(len(w))}, w...)
 						name := q.Question[0].Name
 						switch {
+						// The query stops counting as outstanding just BEFORE the last octet of its reply is
+						// written: a client that has read the whole reply may put its next query on this
+						// connection at once, and that query can reach the reader above before this goroutine
+						// runs again (counting after the write raised a false alarm on a loaded machine).
 						case strings.HasPrefix(name, "late-"):
 							time.Sleep(6500 * time.Millisecond)
 							wm.Lock()
+							outstanding.Add(-1)
 							cn.Write(frame)
 							wm.Unlock()
 						case strings.HasPrefix(name, "split-"):
@@ -98,14 +103,15 @@ func c06LateOne(c *Ctx, idx int, mode string) {
 							wm.Unlock()
 							time.Sleep(900 * time.Millisecond)
 							wm.Lock()
+							outstanding.Add(-1)
 							cn.Write(frame[len(frame)/2:])
 							wm.Unlock()
 						default:
 							wm.Lock()
+							outstanding.Add(-1)
 							cn.Write(frame)
 							wm.Unlock()
 						}
-						outstanding.Add(-1)
 					}()
 				}
 			}()
